@@ -1486,3 +1486,237 @@ def unsafe_position_of_another_name_after_reassignment(module: Node, other: Node
         end = len(name)
     name = other
     return name[:end]
+
+
+# ----------------------------------------------------------------------------- the characters of a name kept in a list
+
+
+def safe_character_list_cut_at_separators(module: Node) -> list[str]:
+    chars = list(module)
+    return ["".join(chars[:dot_position]) for dot_position, char in enumerate(chars) if char == "."]
+
+
+def safe_character_tuple_cut_at_separator_positions(module: Node) -> list[str]:
+    chars = tuple(module)
+    parents = []
+    for position in range(len(chars)):
+        if chars[position] == ".":
+            parents.append("".join(chars[:position]))
+    return parents
+
+
+def safe_character_list_positions_of_the_name_itself(module: Node) -> list[str]:
+    chars = [*module]
+    return ["".join(chars[:position]) for position, char in enumerate(module) if char == "."]
+
+
+def unsafe_character_list_cut_everywhere(module: Node) -> list[str]:
+    chars = list(module)
+    return ["".join(chars[:position]) for position, char in enumerate(chars) if position]
+
+
+def unsafe_character_list_cut_at_underscores_too(module: Node) -> list[str]:
+    chars = list(module)
+    return ["".join(chars[:position]) for position, char in enumerate(chars) if char in "._"]
+
+
+# ----------------------------------------------------------------------------- F-NAME.ORDER: plain string order is no pre-order of the tree
+
+
+class _SortedNames:
+    def __init__(self, listed: list[Node]) -> None:
+        self._sorted_names = sorted(listed)
+        self._by_components = sorted(listed, key=lambda name: name.split("."))
+
+    def safe_full_walk_back_from_the_insertion_point(self, module: Node) -> list[str]:
+        from bisect import bisect
+
+        parents = []
+        idx = bisect(self._sorted_names, module) - 1
+        while idx >= 0:
+            candidate = self._sorted_names[idx]
+            if module.startswith(f"{candidate}."):
+                parents.append(candidate)
+            idx -= 1
+        return parents
+
+    def safe_walk_back_stops_at_the_closest_parent(self, module: Node) -> "str | None":
+        from bisect import bisect
+
+        idx = bisect(self._sorted_names, module) - 1
+        while idx >= 0:
+            candidate = self._sorted_names[idx]
+            if module.startswith(f"{candidate}."):
+                return candidate
+            idx -= 1
+        return None
+
+    def unsafe_walk_back_stops_at_the_first_unrelated_name(self, module: Node) -> list[str]:
+        from bisect import bisect
+
+        parents = []
+        idx = bisect(self._sorted_names, module) - 1
+        while idx >= 0:
+            candidate = self._sorted_names[idx]
+            if not module.startswith(f"{candidate}."):
+                break
+            parents.append(candidate)
+            idx -= 1
+        return parents
+
+    def unsafe_walk_back_jumps_over_other_branches(self, module: Node) -> list[str]:
+        from bisect import bisect
+
+        parents = []
+        idx = bisect(self._sorted_names, module) - 1
+        while idx >= 0:
+            candidate = self._sorted_names[idx]
+            if module.startswith(f"{candidate}."):
+                parents.append(candidate)
+                idx -= 1
+                continue
+            shared = _helper_shared_parent(candidate, module)
+            if shared is None:
+                break
+            idx = bisect(self._sorted_names, shared) - 1
+        return parents
+
+    def unsafe_forward_scan_of_sub_modules_stops_early(self, module: Node) -> list[str]:
+        from bisect import bisect
+
+        below = []
+        for candidate in self._sorted_names[bisect(self._sorted_names, module) :]:
+            if not candidate.startswith(module + "."):
+                return below
+            below.append(candidate)
+        return below
+
+
+def _helper_shared_parent(first: Node, second: Node) -> "str | None":
+    shared = []
+    for a, b in zip(first.split("."), second.split(".")):
+        if a != b:
+            break
+        shared.append(a)
+    return ".".join(shared) if shared else None
+
+
+def unsafe_stack_of_enclosing_names_popped_by_level(nodes: list[Node], aliases: dict[Node, str]) -> dict[str, str]:
+    labels = {}
+    enclosing: list[str] = []
+    for name in sorted(nodes):
+        level = name.count(".")
+        while enclosing and enclosing[-1].count(".") >= level:
+            enclosing.pop()
+        if name in aliases:
+            enclosing.append(name)
+        labels[name] = aliases[enclosing[-1]] if enclosing else name
+    return labels
+
+
+def unsafe_stack_of_enclosing_names_popped_when_unrelated(nodes: list[Node], aliases: dict[Node, str]) -> dict[str, str]:
+    labels = {}
+    enclosing: list[str] = []
+    for name in sorted(nodes):
+        while enclosing and not (name == enclosing[-1] or name.startswith(enclosing[-1] + ".")):
+            enclosing.pop()
+        if name in aliases:
+            enclosing.append(name)
+        labels[name] = aliases[enclosing[-1]] if enclosing else name
+    return labels
+
+
+def safe_stack_of_enclosing_names_in_component_order(nodes: list[Node], aliases: dict[Node, str]) -> dict[str, str]:
+    labels = {}
+    enclosing: list[str] = []
+    for name in sorted(nodes, key=lambda n: n.split(".")):
+        while enclosing and not (name == enclosing[-1] or name.startswith(enclosing[-1] + ".")):
+            enclosing.pop()
+        if name in aliases:
+            enclosing.append(name)
+        labels[name] = aliases[enclosing[-1]] if enclosing else name
+    return labels
+
+
+def safe_sorted_names_pruned_below_the_last_kept(nodes: list[Node]) -> list[str]:
+    kept: list[str] = []
+    for name in sorted(nodes):
+        if kept and name.startswith(f"{kept[-1]}."):
+            continue
+        kept.append(name)
+    return kept
+
+
+# ----------------------------------------------------------------------------- names related by graph edges only
+
+
+class _GraphOfNames:
+    def __init__(self, graph) -> None:
+        self._graph = graph
+
+    def _helper_below(self, module: Node) -> list[Node]:
+        found, todo = [], [module]
+        while todo:
+            node = todo.pop()
+            found.append(node)
+            todo.extend(self._graph.successors(node))
+        return found
+
+    def unsafe_cut_below_graph_edges(self, module: Node, alias: str) -> list[str]:
+        return [alias + name[len(module) :] for name in self._helper_below(module)]
+
+    def safe_cut_below_graph_edges_after_a_test_of_the_names(self, module: Node, alias: str) -> list[str]:
+        return [alias + name[len(module) :] for name in self._helper_below(module) if name == module or name.startswith(module + ".")]
+
+
+# ----------------------------------------------------------------------------- a memo of boundary indices shared between calls
+
+
+def _helper_length_of_closest_listed_with_memo(name: Node, listed: frozenset, known: dict) -> "int | None":
+    pending = []
+    length: "int | None" = len(name)
+    while length is not None:
+        prefix = name[:length]
+        if prefix in known:
+            length = known[prefix]
+            break
+        pending.append(prefix)
+        if prefix in listed:
+            break
+        position = name.rfind(".", 0, length)
+        length = None if position == -1 else position
+    for prefix in pending:
+        known[prefix] = length
+    return length
+
+
+def safe_cut_at_memoised_boundary(nodes: list[Node], aliases: dict[Node, str]) -> dict[str, str]:
+    known: dict = {}
+    labels = {}
+    for module in nodes:
+        length = _helper_length_of_closest_listed_with_memo(module, frozenset(aliases), known)
+        labels[module] = module if length is None else aliases[module[:length]] + module[length:]
+    return labels
+
+
+def _helper_length_with_memo_of_anything(name: Node, listed: frozenset, known: dict) -> "int | None":
+    length: "int | None" = len(name)
+    while length is not None:
+        prefix = name[:length]
+        if prefix in known:
+            return known[prefix]
+        if prefix in listed:
+            break
+        position = name.rfind(".", 0, length)
+        length = None if position == -1 else position
+    known[name] = len(listed)
+    return length
+
+
+def notsafe_cut_at_memoised_number(nodes: list[Node], aliases: dict[Node, str]) -> dict[str, str]:
+    known: dict = {}
+    labels = {}
+    for module in nodes:
+        length = _helper_length_with_memo_of_anything(module, frozenset(aliases), known)
+        labels[module] = module if length is None else aliases[module[:length]] + module[length:]
+    return labels
